@@ -79,7 +79,10 @@ def cases(draw):
         elif kind == "operand":
             grp = draw(st.sampled_from(RELATED)) if (draw(st.booleans()) or mut == "prefix-ext") else [draw(st.sampled_from(OPERANDS))]
             o = draw(st.sampled_from(grp))
-            names.append({"kind": "operand", "name": "&" + ["Src", "src", "SRC"][q] if by_case else f"&x{q}", "bind": list(o), "group": [list(g) for g in grp]})
+            # (ordinary names that look like a register family without being one of the four: a capture called after what it tracks)
+            lookalike = not by_case and draw(st.integers(0, 5)) == 0
+            names.append({"kind": "operand", "name": "&" + ["Src", "src", "SRC"][q] if by_case else ["&framereg-old.64", "&framereg-old.32", "&framereg"][q] if lookalike else f"&x{q}",
+                          "bind": list(o), "group": [list(g) for g in grp]})
         else:
             fam = "&" + kind
             reg = draw(st.sampled_from(sorted(FAMILIES[fam])))
@@ -717,6 +720,44 @@ def ranged_occurrence_cases(draw):
     return {"form": "ranged-occurrence", "listing": L, "pattern": ranged, "written_out": written, "k": k, "bounds": [lo, hi], "regfam": bool(fam)}
 
 
+def _capture_names_through_macro(pattern):
+    """One rule in five: the last character(s) of every capture name are written as a string macro.  -> (pattern, macros) | None"""
+    import zlib
+
+    text = repr(pattern)
+    if zlib.crc32(text.encode()) % 5 != 0 or "@" in text:
+        return None
+    tails = set()
+
+    def names(node):
+        if isinstance(node, str) and node.startswith("&") and len(node) >= 3:
+            tails.add(node[-2:] if node[-2:].isalnum() and len(node) >= 4 else node[-1:])
+        elif isinstance(node, list):
+            for x in node:
+                names(x)
+        elif isinstance(node, dict):
+            for k, v in node.items():
+                names(k)
+                names(v)
+
+    names(pattern)
+    tails = {t for t in tails if t.isalnum()}
+    if len(tails) != 1:
+        return None  # one macro for one tail keeps the factoring obviously equivalent
+    tail = tails.pop()
+
+    def sub(node):
+        if isinstance(node, str):
+            return node[: -len(tail)] + "@yw_" if node.startswith("&") and node.endswith(tail) and len(node) > len(tail) + 1 else node
+        if isinstance(node, list):
+            return [sub(x) for x in node]
+        if isinstance(node, dict):
+            return {sub(k) if isinstance(k, str) else k: sub(v) for k, v in node.items()}
+        return node
+
+    return sub(pattern), [{"name": "@yw_", "pattern": tail}]
+
+
 def strategy(tier):
     return st.one_of(cases(), cases(), cases(), cases(), cases(), cases(), cases(), cases(), cases(), cases(), deref_capture_cases(), deref_capture_cases(), deref_operator_capture_cases(), deref_operator_capture_cases(), many_names_cases(),
                      ranged_occurrence_cases(), ranged_occurrence_cases())
@@ -788,7 +829,18 @@ def evaluate(case):
         exp, spans, _ = compare(ev, pattern, L, mn_full or None, op_full or None, spans=spans0, macros_files=[SHIPPED_MACROS])
         ev.tags.append("shipped-macros")
     else:
-        exp, spans, _ = compare(ev, pattern, L, mn_full or None, op_full or None)
+        spelled = _capture_names_through_macro(pattern)
+        if spelled is not None:
+            # a part of every capture name comes from a string macro (`&genreg-1.@yw_` with @yw_ = "64", `&x@yw_` with "0"): the same
+            # names, the same captures
+            from vlib.gen_listing import norm_view
+            from vlib.refmatch import Ref
+
+            spans0 = Ref(norm_view(L), bool(mn_full), bool(op_full)).spans(pattern)
+            exp, spans, _ = compare(ev, spelled[0], L, mn_full or None, op_full or None, spans=spans0, doc_macros=spelled[1])
+            ev.tags.append("capture-name-through-string-macro")
+        else:
+            exp, spans, _ = compare(ev, pattern, L, mn_full or None, op_full or None)
     ev.tags = ev.tags + (["flags=full"] if (mn_full or op_full) else []) + [f"mut={case['mut']}", "expect=found" if exp else "expect=notfound"] + [f"kind={k}" for k in case["kinds"]]
     near = case["mut"] != "none"
     if near:
